@@ -69,6 +69,8 @@ m('c05-tokenwriter-lock-leak', 'C05', 'session.go', '''	if lwc.broken {
 seeded('c05-seeded-1-pooled-buffer', 'C05', 'C05-1')
 seeded('c05-seeded-2-flush-outside-lock', 'C05', 'C05-2')
 seeded('c05-seeded-3-flush-resets-depth', 'C05', 'C05-3')
+for _i in range(4, 10):
+    seeded('c05-seeded-%d' % _i, 'C05', 'C05-%d' % _i)
 m('c05-harmless-attr-order', 'C05', 'session.go', '''			if f := se.from.String(); f != "" && !foundFrom {
 				tok.Attr = append(tok.Attr, xml.Attr{
 					Name:  xml.Name{Local: "from"},
@@ -196,6 +198,8 @@ m('c10-seeded-1-bit-after-write', 'C10', 'session.go', '''	s.state |= OutputStre
 	return err''')
 seeded('c10-seeded-2-deadline-derived', 'C10', 'C10-2')
 seeded('c10-seeded-3-close-without-lock', 'C10', 'C10-3')
+for _i in range(4, 10):
+    seeded('c10-seeded-%d' % _i, 'C10', 'C10-%d' % _i)
 m('c10-harmless-helper', 'C10', 'session.go', '''func (s *Session) outputClosed() bool {
 	s.stateMutex.RLock()
 	defer s.stateMutex.RUnlock()
@@ -230,6 +234,8 @@ m('c13-stream-text-lang-lost', 'C13', 'stream/error.go', '''		if txt.Lang != "" 
 seeded('c13-seeded-1', 'C13', 'C13-1')
 seeded('c13-seeded-2-whitespace-texts-dropped', 'C13', 'C13-2')
 seeded('c13-seeded-3', 'C13', 'C13-3')
+for _i in range(4, 10):
+    seeded('c13-seeded-%d' % _i, 'C13', 'C13-%d' % _i)
 m('c13-harmless-attr-order', 'C13', 'stanza/iq.go', '''	if !iq.To.Equal(jid.JID{}) {
 		attr = append(attr, xml.Attr{Name: xml.Name{Local: "to"}, Value: iq.To.String()})
 	}
@@ -249,6 +255,55 @@ m('c13-harmless-newiq-switch', 'C13', 'stanza/iq.go', '''		case "type":
 		default:
 		}''', 'harmless')
 
+# round 5: the two deadline watchers share one helper, each with its own setter (harmless)
+m('c10-harmless-watch-helper', 'C10', 'session.go', '''func setWriteDeadline(ctx context.Context, conn net.Conn) context.CancelFunc {
+	cancelCtx, cancel := context.WithCancel(context.Background())
+	done := make(chan struct{})
+	go func() {
+		defer close(done)
+		select {
+		case <-ctx.Done():
+			/* #nosec */
+			conn.SetWriteDeadline(aLongTimeAgo)
+			<-cancelCtx.Done()
+			/* #nosec */
+			conn.SetWriteDeadline(time.Time{})
+		case <-cancelCtx.Done():
+		}
+	}()
+	return func() {
+		cancel()
+		<-done
+	}
+}
+''', '''func setWriteDeadline(ctx context.Context, conn net.Conn) context.CancelFunc {
+	return watchCtx(ctx, conn.SetWriteDeadline)
+}
+
+func watchCtx(ctx context.Context, set func(time.Time) error) context.CancelFunc {
+	cancelCtx, cancel := context.WithCancel(context.Background())
+	done := make(chan struct{})
+	go func() {
+		defer close(done)
+		select {
+		case <-ctx.Done():
+			/* #nosec */
+			set(aLongTimeAgo)
+			<-cancelCtx.Done()
+			/* #nosec */
+			set(time.Time{})
+		case <-cancelCtx.Done():
+		}
+	}()
+	return func() {
+		cancel()
+		<-done
+	}
+}
+''', 'harmless')
+# round 5: the encoder's address read from the field LocalAddr returns (harmless)
+m('c05-harmless-from-field', 'C05', 'session.go', '''		se.from = s.LocalAddr()''', '''		se.from = s.in.Info.To''', 'harmless')
+
 env = dict(os.environ, GOFLAGS='-mod=mod', GOPROXY='off', GOSUMDB='off', GOTOOLCHAIN='local')
 
 
@@ -262,7 +317,7 @@ def run(name, mode):
     prop, file, old, new, kind = M[name]
     try:
         if file is None:
-            rc, out = sh('patch -p1 -F5 -s -f --no-backup-if-mismatch < /verif/seeded/%s/patch.diff; rm -f *.orig *.rej; git diff --stat | tail -1' % old, cwd=REPO)
+            rc, out = sh('patch -p1 -F5 -s -f --no-backup-if-mismatch -i /verif/seeded/%s/patch.diff; rm -f *.orig *.rej; git diff --stat | tail -1' % old, cwd=REPO)
             if 'changed' not in out:
                 return '%s: seeded patch did not apply' % name
         else:
